@@ -388,7 +388,7 @@ func buildGroups(r *core.Run, alpha []Token) []group {
 	if want("S1") {
 		for _, m := range modes {
 			m := m
-			for _, p := range append(append([]string{}, progs5...), progState) {
+			for _, p := range append(append([]string{}, progs5...), progFmt, progState) {
 				p := p
 				if p == progState && !stateModes[strings.Join(seqWords(m), " ")] {
 					continue
@@ -568,6 +568,9 @@ func run(r *core.Run) {
 			r.Logf("group %d/%d (%s) runs=%d", gi, len(gs), g.section, w.runs)
 		}
 	}
+	if !expired && filter == "" && (os.Getenv("VERIF_ONLY") == "" || os.Getenv("VERIF_ONLY") == "S-raw") {
+		rawSection(r)
+	}
 	if expired {
 		var secs []string
 		for s := range sectionTotal {
@@ -624,6 +627,12 @@ func parent(r *core.Run) {
 }
 
 func replay(r *core.Run, raw json.RawMessage) bool {
+	var k struct {
+		Kind string `json:"kind"`
+	}
+	if json.Unmarshal(raw, &k) == nil && k.Kind == "raw" {
+		return rawReplay(raw)
+	}
 	var c Case
 	if err := json.Unmarshal(raw, &c); err != nil {
 		fmt.Println("bad case:", err)
